@@ -91,10 +91,19 @@ def make_tracer(baton, tid, traced):
 SESS_QUALS = ('FileSession.', 'Session.__init__', 'Session._regenerate', 'Session.id')
 
 
-def run_threads(sb, app, reqs, plan, traced):
-    """Run the requests, one thread each, under `plan`.  Returns ([per-request result], baton)."""
+class Deadlock(Exception):
+    """A request thread never came back although everybody was allowed to run: the code under test blocks
+    for good under this interleaving.  Not a path question (the statement is silent about it) and nothing this
+    process can recover from: the sweep stops and says so."""
+
+
+def run_threads(sb, app, reqs, plan, traced, stuck_after=20.0):
+    """Run the requests, one thread each, under `plan`.  Returns ([per-request result], baton).  A thread that
+    blocks while it holds the baton (the code under test took a lock the pre-empted thread holds) makes the
+    plan infeasible: after `stuck_after` seconds everybody runs freely (`baton.stuck`), the results are still
+    judged."""
     from . import c11_fs as fs
-    baton = Baton(plan, len(reqs))
+    baton = Baton(plan, len(reqs), timeout=stuck_after)
     results = [None] * len(reqs)
     errors = []
 
@@ -121,17 +130,16 @@ def run_threads(sb, app, reqs, plan, traced):
         for t in threads:
             t.start()
         for t in threads:
-            t.join(60)
+            t.join(60 + stuck_after)
             if t.is_alive():
                 baton.free = True
                 with baton.cv:
                     baton.cv.notify_all()
                 t.join(30)
-                raise common.HarnessError('scheduler: thread %s did not finish (plan %r)' % (t.name, plan))
+                if t.is_alive():
+                    raise Deadlock('thread %s did not finish under plan %r' % (t.name, plan))
     finally:
         fs.TAP.close()
-    if baton.stuck:
-        raise common.HarnessError('scheduler stuck (a thread blocked while holding the baton), plan %r' % (plan,))
     for tid, e in errors:
         if isinstance(e, common.HarnessError) or fs.origin(e) != 'code':
             raise common.HarnessError('scheduler worker %d raised %r' % (tid, e))
@@ -167,12 +175,22 @@ def run_conc(sb, case):
                 'body': sb.content.get(res['body'], None) if res['status'] == '200' else None}
 
     # each request alone: the reference, and the number of traced lines
+    import time
     seq, n = [], {}
+    slowest = 0.0
     for i, r in enumerate(reqs):
-        res, baton = run_threads(sb, app, [r], [[0, None]], traced)
+        t0 = time.time()
+        try:
+            res, baton = run_threads(sb, app, [r], [[0, None]], traced)
+        except Deadlock as e:
+            return {'oracle': [], 'hist': ['conc:%s:request-alone-never-returns' % half],
+                    'code_raised': 'hang: %s' % e}
+        slowest = max(slowest, time.time() - t0)
         seq.append(summary(res[0]))
         n[i] = baton.steps[0]
         restore()
+    # a thread that holds the baton and makes no progress for this long is blocked on the other thread
+    stuck_after = min(20.0, max(3.0, 100 * slowest))
     # State left behind by earlier requests (module globals, class attributes, caches) is part of what a
     # schedule runs against.  Every schedule therefore starts from a stated history: the requests run alone,
     # untraced, in the order `pre` - which makes a failing (pre, plan) replayable on its own.
@@ -188,17 +206,25 @@ def run_conc(sb, case):
         if case.get('samples') and len(plans) > case['samples']:
             plans = rnd.sample(plans, case['samples'])
         plans = [(orders[rnd.randrange(2)], pl) for pl in plans]
-    bad, ran, switched = [], 0, 0
+    bad, ran, switched, stuck, dead = [], 0, 0, 0, 0
     for pre, plan in plans:
         for i in pre:
             sb.cur = {'label': 'pre%d' % i, 'gen_n': 0}
             sb.call(app, 'GET', '', reqs[i]['path'], reqs[i].get('qs', ''), reqs[i].get('cookie'))
         sb.cur = {}
         restore()
-        res, baton = run_threads(sb, app, reqs, plan, traced)
+        try:
+            res, baton = run_threads(sb, app, reqs, plan, traced, stuck_after)
+        except Deadlock:
+            dead += 1
+            break                   # threads of this process are lost: nothing more can be scheduled here
         changed = restore()
         ran += 1
         switched += 1 if baton.switches else 0
+        if baton.stuck:
+            stuck += 1              # infeasible plan (the pre-empted thread holds a lock the other one wants)
+            if stuck >= 3:
+                break
         replay = dict(case, mode='plan', plan=plan, pre=pre)
         replay.pop('samples', None)
         replay.pop('seed', None)
@@ -223,7 +249,8 @@ def run_conc(sb, case):
             break
     return {'oracle': bad, 'seq': [_short(x) for x in seq], 'lines': [n[i] for i in range(len(reqs))],
             'hist': ['conc:%s:%s' % (half, mode)],
-            'counts': {'conc:schedules-run': ran, 'conc:schedules-with-a-switch': switched}}
+            'counts': {'conc:schedules-run': ran, 'conc:schedules-with-a-switch': switched,
+                       'conc:schedules-infeasible(blocked)': stuck, 'conc:deadlocks': dead}}
 
 
 def _short(x):
